@@ -19,25 +19,48 @@ import fcorr
 import vlib
 
 META = {
-    "text": "Rocq theorems over the reals, for ALL inputs and ALL parameter tuples satisfying the stated ordering: each of the "
-            "13 membership functions lies in [0,1], is 1 on its core, continuous (stdlib continuity for every x), monotone on "
-            "each flank, S/Z and rising/falling ramp are complementary, pi and gauss2 are their glued pieces, dsig in [0,1] "
-            "under equal slopes and ordered centres, every division executed has a non-zero denominator; the dispatcher "
-            "equals the specific function for all 13 tags (0 otherwise); the seven operators on [0,1]^2 are commutative, "
-            "monotone, cap<=min, cup>=max, reduce at 0 and 1, equ lies between; a_pid_fuzzy_out_ (explicit scratch arrays, "
-            "bounds-checked) returns base + weighted mean of the consequents of the active rules (hence between the "
-            "smallest and largest active consequent), the 1/sum division is executed only for a positive sum, positive "
-            "sum is guaranteed for six operators and characterised for the bounded product, no scratch cell outside "
-            "idx[2n]/val[n(n+2)] is touched when at most n sets are active per input, and the controller output stays "
-            "within its limits after every run/pos/inc step of every history.  Tie: bit-exact binary64 run of the same "
-            "terms vs the C (libm substituted identically on both sides), scratch compared cell by cell under ASan.",
-    "note": "Trusted: Coq kernel/vm_compute with primitive floats; real-number axioms listed by Print Assumptions; the 'same "
-            "term, different NumOps instance' argument; the hand transcription coq/C13/MfDefs.v + FuzzyDefs.v, validated bit "
-            "for bit on the generated cases only; in the R instance pow is the real power function Rpow of coq/C13/R13Ops.v "
-            "(Rpower for a positive base, 0^y, integer powers of negative bases) and exp is Coq's exp; libm accuracy is not "
-            "checked; unsigned indices are nat (no 2^32 wrap), (int) truncation of table tags modelled for finite values.",
-    "technique": "Rocq proof over R (case analysis + lra/nra/field, stdlib continuity, list induction over the scratch "
-                 "arrays) + bit-exact primitive-float model vs C correspondence + independent reference oracle",
+    "category": "proof",
+    "text": "32 Rocq theorems over the reals (coq/Properties_C13.v), for ALL inputs and ALL parameter tuples: each of the 13 "
+            "membership functions of src/mf.c lies in [0,1] (no ordering needed except dsig: equal slopes, centres ordered "
+            "with the sign of the slope; refuted without), is exactly 1 on its core and 0 outside its support, is continuous "
+            "at every x (stdlib continuity; non-zero widths), monotone on each flank (gauss, gauss2, gbell, sig, trap, tri, "
+            "lins, linz, s, z, pi; psig for slopes of equal sign), lins+linz=1 for all a,b and s+z=1 for a<b, pi and gauss2 "
+            "are their glued pieces, every executed division has a non-zero denominator and every pow stays in its real "
+            "domain (unconditionally for the piecewise families, a=b shoulders included); a_mf returns the specific "
+            "function for all 13 tags, 0 otherwise, and reads exactly that function's parameters; the as-found lins/linz "
+            "(0/0 at x=a=b) and tri (0 at the peak when b=c) are refuted and the repairs shown conservative.  Operators on "
+            "[0,1]^2: the three intersections and three unions are closed, commutative, monotone in each argument, "
+            "cap<=min, cup>=max, with the boundary cases at 0 and 1, De Morgan duals; a_fuzzy_equ (and a_fuzzy_equ_ for "
+            "gamma in [0,1]) lies between algebraic product and sum; a_pid_fuzzy_opr dispatch; closed/commutative/monotone "
+            "for every enumerator value.  Gain scheduling (a_pid_fuzzy_mf, a_pid_fuzzy_out_, run/pos/inc/zero over explicit "
+            "bounds-checked scratch arrays of the A_PID_FUZZY_BFUZZ layout, on top of the C12 controller model): with at most "
+            "nfuzz active sets per input the call succeeds (no access outside idx[2n], val[n(n+2)] or the nrule x nrule rule "
+            "bases), and each gain is base + sum(w_ij*m_ij)*(1/sum w_ij) with w_ij>=0 and a positive, hence non-zero, "
+            "divisor - so between base+min and base+max active consequent - or exactly the base gain when no rule fires or "
+            "the rule base is NULL; the divisor is positive for six operators whenever both inputs have active sets and "
+            "for the bounded product iff some pair of active memberships sums above 1; after every run/pos/inc step of "
+            "every history the output is within outmin..outmax.  NOT proved: monotone flanks of dsig and of psig with "
+            "slopes of opposite sign; rounding (binary64) is outside the theorems.  Tie: the SAME Gallina terms instantiated "
+            "with primitive binary64 floats are evaluated by vm_compute and compared bit for bit with the C built from the "
+            "current tree (-O2 -ffp-contract=off, ASan; exp/pow replaced by identical substitutes on both sides): all 13 "
+            "functions and the dispatcher on breakpoints and their neighbouring doubles, the operators, table walks, and "
+            "controller histories with the whole scratch block compared cell by cell after every step, including "
+            "deliberately undersized blocks where model (Fail ErrScratch) and ASan must agree.  Search oracle: the property "
+            "evaluated on a real-libm build by an independent Python reference (exact rationals for the piecewise families).",
+    "note": "Trusted: Coq kernel/vm_compute with primitive floats; the standard real-number axioms listed by Print "
+            "Assumptions (classical reals, functional extensionality); the 'same term, different NumOps instance' argument; "
+            "the hand transcription coq/C13/MfDefs.v + FuzzyDefs.v (on coq/C12/PidDefs.v), validated bit for bit on the "
+            "generated cases only.  Modelled, not verified: in the R instance pow is the real power function Rpow of "
+            "coq/C13/R13Ops.v (Rpower for a positive base, 0^y, integer powers of negative bases) and exp is Coq's exp - "
+            "libm accuracy is not checked, the bit-exact run replaces exp/pow by substitutes; unsigned indices are nat (no "
+            "2^32 wrap); the (int) truncation of table tags is modelled for finite values; NULL rule bases are None; the "
+            "scratch block is two arrays idx[2n]/val[n(n+2)] (byte layout stated by bfuzz_bytes/val_offset and compared with "
+            "the C's pointer arithmetic in the run); the active sets ae/aec of the gain theorems are characterised by the "
+            "executable walk_spec (sets whose membership exceeds A_REAL_EPSILON), and 'at most nfuzz active sets' and "
+            "'table long enough for its tags' are hypotheses.",
+    "technique": "Rocq proof over R (case analysis + lra/nra/field, stdlib continuity and Rpower, forward simulation of the "
+                 "loops over explicit scratch lists by induction) + bit-exact primitive-float model vs C correspondence "
+                 "under ASan + independent reference oracle",
 }
 
 H = vlib.VERIF / "harness" / "C13"
@@ -718,6 +741,13 @@ def run(ctx):
     ok, outs, failed = ctx.coq_build(["C13/FuzzyShow.v"])
     if not ok:
         raise vlib.CheckError("model does not compile: %s\n%s" % (failed, "\n".join(outs.get(f, "")[-800:] for f in failed)))
+    # non-vacuity examples (a concrete controller satisfying every hypothesis of the gain theorems; the as-found
+    # a_pid_fuzzy_out_ storing NaN in the binary64 instance) are not a dependency of Properties_C13.v: build them too
+    bad = ctx.scan_forbidden([vlib.COQ / "C13" / "Examples.v"])
+    ok, outs, failed = ctx.coq_build(["C13/Examples.v"])
+    if bad or not ok:
+        ctx.tie_broken("C13/Examples.v (non-vacuity examples) no longer checks: %s %s"
+                       % (bad, " ".join(outs.get("C13/Examples.v", "").split())[-300:]))
     env = {"ASAN_OPTIONS": "detect_leaks=0:abort_on_error=0:exitcode=23"}
     import os
     os.environ.update(env)
